@@ -1,5 +1,10 @@
 package main
 
+import (
+	"sort"
+	"strings"
+)
+
 func init() {
 	registerRule("R01", ruleR01)
 	registerRule("R02", ruleR02)
@@ -129,4 +134,53 @@ func init() {
 		Rules:      []string{"R17", "R29", "R04", "R24", "R03", "R30"},
 		Explain:    "Structural content of 'no per-operation leak': R29/R31 nothing a query allocates is stored into memory that outlives the call; R17 the sort key is copied out of the tree-lifetime collate.Buffer and the buffer is reset on every path, so it neither grows with the number of operations nor is aliased by stored leaves; R03 an overwrite of a present key stores only the value; R04 a successful Delete overwrites the slot that held the leaf (the leaf and its key bytes become unreachable); R24 emptied nodes go back to the pool cleared. R30 the pool is a sync.Pool (collectable), not a hand-written free list.",
 		NotDecided: "Actual heap numbers; stale duplicates left in unoccupied child slots by copy-shifting are bounded by node capacity (noted, not flagged)."})
+
+	// Attribution by implication: a defect of the shared node layer (a lost or misplaced child, a
+	// wrong fan-out, a dereferenced nil) breaks every behavioural property of every tree kind, and
+	// a defect of the traversals every property about what iteration yields. The rules below are
+	// therefore run for, and their obligations attributed to, these properties as well.
+	nodeLayer := []string{"R06", "R07", "R09", "R10", "R19", "R21", "R22", "R37", "R41", "R43", "R44"}
+	for _, r := range nodeLayer {
+		impliedProps[r] = append(impliedProps[r], "C01", "C02", "C06", "C08", "C09", "C10", "C11")
+	}
+	for _, r := range []string{"R09", "R10", "R35", "R39", "R12"} {
+		impliedProps[r] = append(impliedProps[r], "C02", "C03", "C04", "C05", "C08", "C09")
+	}
+	for _, r := range []string{"R04", "R14"} { // unlink ↔ counter: an emptied tree equals a new one (C12)
+		impliedProps[r] = append(impliedProps[r], "C12")
+	}
+	impliedProps["R06"] = append(impliedProps["R06"], "C18") // a layout read through the wrong type is also an unsafe.Pointer misuse
+	impliedProps["R20"] = append(impliedProps["R20"], "C02", "C01", "C11")
+	impliedProps["R45"] = append(impliedProps["R45"], "C01", "C08", "C09")
+	impliedProps["R17"] = append(impliedProps["R17"], "C14", "C08")
+	impliedProps["R26"] = append(impliedProps["R26"], "C14", "C17")
+	impliedProps["R29"] = append(impliedProps["R29"], "C08")
+	for r, ps := range impliedProps {
+		for _, p := range ps {
+			spec := propTable[p]
+			if spec == nil {
+				continue
+			}
+			has := false
+			for _, x := range spec.Rules {
+				if x == r {
+					has = true
+				}
+			}
+			if !has {
+				spec.Rules = append(spec.Rules, r)
+				impliedFor[p] = append(impliedFor[p], r)
+			}
+		}
+	}
+	for p, rs := range impliedFor {
+		sort.Strings(rs)
+		propTable[p].Explain += " By implication the check also runs " + strings.Join(rs, ", ") + " (rules of the shared node layer, the traversals and the descent loops, stated under the properties they were designed for): a child lost, misplaced or miscounted there, or a faulting lookup, breaks this property as well."
+	}
 }
+
+var impliedFor = map[string][]string{}
+
+// impliedProps: rule → properties its obligations are attributed to in addition to those the rule
+// names itself.
+var impliedProps = map[string][]string{}
